@@ -56,6 +56,12 @@ Init == b1 \in Desc /\ b2 \in Desc /\ Sensible(b1) /\ Sensible(b2)
 Next == UNCHANGED vars
 Spec == Init /\ [][Next]_vars
 
+\* a fragment with the two attachment points b1, b2 completed on its own: nothing stays open and the reported
+\* rules do not depend on the order in which the boundaries are listed
+CONSTANT LoopMode
+TwoBoundariesClosed == ManyOpen(ERules, <<b1, b2>>, 1, LoopMode) = 0 /\ ManyOpen(ERules, <<b2, b1>>, 1, LoopMode) = 0
+TwoBoundariesOrderFree == BagOfSeq(ManyRules(MRules, ERules, <<b1, b2>>, 1, LoopMode))
+                            = BagOfSeq(ManyRules(MRules, ERules, <<b2, b1>>, 1, LoopMode))
 AlwaysAMergeRule == FirstMerge(MRules, b1, b2) # 0
 CompletionWellFormed == OneBond(MRules, ERules, b1) \in {"no-expansion", "single", "double", "none"}
 ExpansionsCarbonFree == \A j \in 1..Len(ERules) : V(ERules[j].heavy, "C") = 0
